@@ -49,7 +49,7 @@ def compare_slot(w: World, slot_idx: int, owner: str, trigger: str, *, bind=True
                     fail("kind", f"kind of {mc.uid} is {getattr(rc, 'kind', None)!r}, "
                                  f"expected {mc.kind!r}")
             meta = rc.meta
-            if (meta or None) != (mc.meta or None):
+            if meta != (mc.meta or None):  # "the metadata dictionary or None if empty"
                 fail("meta", f"meta of {mc.uid} is {meta!r}, expected {mc.meta!r}")
             if mc.nid is not None and rc.node_id != mc.nid:
                 fail("node_id", f"node_id of {mc.uid} is not the explicit id it was given")
@@ -129,11 +129,21 @@ def check_index(w: World, slot_idx: int, probe_dids=(), probe_data=()):
         if not same_set(got, exp):
             fail(f"find_all(data_id=) returns {len(got)} nodes, {len(exp)} carriers in tree"
                  f" (or wrong nodes)")
+        # the result belongs to the caller: changing it must not change the tree
+        got.clear()
+        got.append(None)
+        if not same_set(tree.find_all(data_id=d), exp):
+            fail("the list returned by find_all(data_id=) is the index itself "
+                 "(changing it changes later lookups)", "index/result-aliases-index")
         if len(exp) > 1:
-            sub = tree.find_all(data_id=d, max_results=1)
-            ids = {id(x) for x in exp}
-            if any(id(x) not in ids for x in sub):
-                fail("find_all(data_id=, max_results=1) returns a non-carrier")
+            for k in (1, len(exp) - 1, len(exp), len(exp) + 1):
+                sub = tree.find_all(data_id=d, max_results=k)
+                ids = {id(x) for x in exp}
+                if any(id(x) not in ids for x in sub):
+                    fail("find_all(data_id=, max_results=) returns a non-carrier")
+                if len(sub) != min(k, len(exp)) or len({id(x) for x in sub}) != len(sub):
+                    fail(f"find_all(data_id=, max_results={k}) returns {len(sub)} nodes of "
+                         f"{len(exp)} carriers", "index/max_results")
         ff = tree.find_first(data_id=d)
         if exp:
             if ff is None or all(ff is not x for x in exp):
@@ -196,6 +206,39 @@ def check_index(w: World, slot_idx: int, probe_dids=(), probe_data=()):
         else:
             if len(exp) != 1 or one is not exp[0]:
                 fail(f"tree[{w.dkey(obj)}] returned a node, {len(exp)} carriers")
+
+    # branch-scoped lookups: Node.find_all / find_first see the carriers below the node
+    with_kids = [c for c in order if real_children(c)]
+    for b in (with_kids[:1] + with_kids[len(with_kids) // 2:len(with_kids) // 2 + 1]):
+        below: dict[object, list] = {}
+        sub_order = []
+
+        def rec2(obj):
+            for c in real_children(obj):
+                sub_order.append(c)
+                below.setdefault(c.data_id, []).append(c)
+                rec2(c)
+
+        rec2(b)
+        for d in dids:
+            exp = below.get(d, [])
+            got = b.find_all(data_id=d)
+            if not same_set(got, exp):
+                fail(f"node.find_all(data_id=) returns {len(got)} nodes, {len(exp)} carriers "
+                     f"below the node", "node-lookup")
+            ff = b.find_first(data_id=d)
+            if (ff is None) != (not exp) or (exp and all(ff is not x for x in exp)):
+                fail("node.find_first(data_id=) wrong", "node-lookup")
+        for obj in seen_data.values():
+            try:
+                d = mt.rule(obj)
+            except TypeError:
+                continue
+            exp = below.get(d, [])
+            got = b.find_all(obj)
+            if not same_set(got, exp):
+                fail(f"node.find_all({w.dkey(obj)}) returns {len(got)} nodes, {len(exp)} "
+                     f"carriers below the node", "node-lookup")
 
     # clone queries per node (big trees: every 7th node, plus the first 50)
     sample = order if len(order) <= 400 else order[:50] + order[50::7]
